@@ -228,7 +228,7 @@ func checkC02(ctx *Ctx) *Result {
 		if rp.Is(aPass) {
 			continue
 		}
-		if isPreflightAtoms(rp) {
+		if isPreflightPath(rp) {
 			preAll = append(preAll, rp)
 		} else if rp.Is(aFoundO) {
 			actAll = append(actAll, rp)
